@@ -2,12 +2,18 @@
 //! /verif/engines/kani_asm/gen_x64.py from the `pub fn` signatures of the dora-asm working
 //! tree joined with /verif/spec/x64.toml.
 //!
-//! One generic *body* per harness builds the operands from a value source, calls the real
-//! assembler method, and returns the emitted bytes together with the instruction the spec
-//! expects.  Under Kani the value source is `kani::any()` and `verdict` asserts field by
-//! field; natively (`c07-replay`) the value source is a list of concrete numbers and the
-//! same comparison is printed as JSON.  What is replayed is therefore exactly what was
-//! verified.
+//! A *unit* (`u_<method>__<variant>`) draws the operands of one assembler method from a value
+//! source, calls the real method on the assembler it is given and returns what the spec
+//! expects to have been emitted.  A *group* harness (`g_<name>`) creates one assembler, picks
+//! one of its units with a symbolic selector, finalizes, runs the reference decoder once and
+//! asserts one named check per unit (`C07:m:<unit>`), with one `kani::cover!` per unit as
+//! vacuity witness.  Grouping amortises Kani's fixed per-harness cost; attribution stays per
+//! method because every unit has its own check (and its own counterexample).
+//!
+//! Under Kani the value source is `kani::any()`; natively (`c07-replay`) it is a list of
+//! concrete numbers and the same comparison is printed as JSON, field by field.  What is
+//! replayed is therefore exactly what was verified.
+#![cfg_attr(kani, feature(allocator_api))]
 
 pub mod decoder;
 #[allow(unused_variables, unused_mut, unused_imports, unused_assignments, unused_parens, non_snake_case, clippy::all)]
@@ -81,9 +87,9 @@ impl Src for ListSrc {
     }
 }
 
-pub struct Outcome {
-    /// everything the assembler emitted (`finalize(1).code()`)
-    pub code: Vec<u8>,
+/// what a unit expects, relative to the code buffer it emitted into
+#[derive(Copy, Clone)]
+pub struct Exp {
     /// offset of the instruction under test
     pub at: usize,
     /// bytes that legitimately follow the instruction (filler of the label harnesses)
@@ -92,11 +98,26 @@ pub struct Outcome {
     /// a second accepted decoding (commuted operands of a commutative instruction, or an
     /// architecturally indistinguishable form named in the spec)
     pub alt: Option<Insn>,
-    /// the spec's legality predicate on the operands (H_any asserts it after the call)
+    /// the spec's legality predicate on the operands (asserted *after* the call returned)
     pub legal: bool,
-    /// label harnesses: absolute position the label was bound to; the decoded branch /
-    /// RIP-relative target must equal it
+    /// label units: position the label was bound to; >= 0 absolute, < 0 relative to the end
+    /// of the code (-1 = last byte).  The decoded branch / RIP-relative target must equal it.
     pub target: Option<i64>,
+}
+
+pub struct Outcome {
+    /// everything the assembler emitted (`finalize(1).code()`)
+    pub code: Vec<u8>,
+    pub e: Exp,
+}
+
+impl Outcome {
+    pub fn target_abs(&self) -> Option<i64> {
+        match self.e.target {
+            None => None,
+            Some(t) => Some(if t < 0 { self.code.len() as i64 + t } else { t }),
+        }
+    }
 }
 
 pub const FIELDS: [&str; 16] = [
@@ -104,20 +125,37 @@ pub const FIELDS: [&str; 16] = [
     "length", "legal",
 ];
 
+/// Run the reference decoder on the instruction under test.  The (at most 15) bytes are first
+/// copied into a local window, so that the decoder indexes a plain array.
+pub fn decode_outcome(o: &Outcome) -> Option<Insn> {
+    let n = o.code.len();
+    let at = o.e.at;
+    if at >= n {
+        return None;
+    }
+    let mut w = [0u8; 16];
+    macro_rules! cp {
+        ($($k:expr),*) => { $( if at + $k < n { w[$k] = o.code[at + $k]; } )* };
+    }
+    cp!(0, 1, 2, 3, 4, 5, 6, 7, 8, 9, 10, 11, 12, 13, 14, 15);
+    let avail = if n - at < 16 { n - at } else { 16 };
+    decoder::decode(&w[..avail], 0)
+}
+
 /// The comparison, field by field, in the order of `FIELDS` (true = agrees).
 pub fn compare(o: &Outcome, got: &Option<Insn>) -> [bool; 16] {
     let mut r = [true; 16];
-    r[15] = o.legal;
+    r[15] = o.e.legal;
     match got {
         None => {
             r[0] = false;
         }
         Some(g) => {
-            let mut e = o.exp;
-            let mut alt = o.alt;
-            if let Some(t) = o.target {
+            let mut e = o.e.exp;
+            let mut alt = o.e.alt;
+            if let Some(t) = o.target_abs() {
                 let d: i64 = if g.o1.kind == K_REL { g.rel } else { g.mem.disp as i64 };
-                r[10] = (o.at as i64) + (g.len as i64) + d == t;
+                r[10] = (o.e.at as i64) + (g.len as i64) + d == t;
                 // the displacement itself is whatever reaches the target
                 e.rel = g.rel;
                 e.mem.disp = g.mem.disp;
@@ -145,34 +183,65 @@ pub fn compare(o: &Outcome, got: &Option<Insn>) -> [bool; 16] {
             } else {
                 r[10] = true;
             }
-            r[14] = o.at + g.len + o.tail == o.code.len();
+            r[14] = o.e.at + g.len + o.e.tail == o.code.len();
         }
     }
     r
 }
 
-/// Post-assertions of every harness.  One named check per field so that the per-check
-/// statuses of CBMC tell which part of the instruction is wrong.
-#[cfg(kani)]
-pub fn verdict(o: &Outcome) {
-    let got = decoder::decode(&o.code, o.at);
-    kani::cover!(true, "C07:reached");
-    kani::cover!(got.is_some() && o.legal, "C07:reached_decodable_legal");
+/// decode == expected (every field), nothing more or less (length), operands legal
+pub fn all_ok(o: &Outcome) -> bool {
+    let got = decode_outcome(o);
     let r = compare(o, &got);
-    assert!(r[0], "C07:decodes");
-    assert!(r[1], "C07:mnemonic");
-    assert!(r[2], "C07:opsize");
-    assert!(r[3], "C07:cc");
-    assert!(r[4], "C07:o1");
-    assert!(r[5], "C07:o2");
-    assert!(r[6], "C07:o3");
-    assert!(r[7], "C07:o4");
-    assert!(r[8], "C07:mem");
-    assert!(r[9], "C07:imm");
-    assert!(r[10], "C07:target");
-    assert!(r[11], "C07:prefixes");
-    assert!(r[12], "C07:vex");
-    assert!(r[13], "C07:by_cl");
-    assert!(r[14], "C07:length");
-    assert!(r[15], "C07:legal");
+    r[0] && r[1] && r[2] && r[3] && r[4] && r[5] && r[6] && r[7] && r[8] && r[9] && r[10] && r[11] && r[12] && r[13] && r[14] && r[15]
+}
+
+/// Checked no-growth model of std's Vec for the harnesses (Kani stubs, `-Z stubbing`).
+/// The assembler's buffers get a fixed capacity up front; exceeding it is an *asserted*
+/// check (a harness whose code does not fit is reported as inconclusive, never silently
+/// truncated).  This removes the "reallocate at a symbolic length" case split that makes
+/// CBMC's formula explode (> 50 GB) as soon as an instruction has a variable-length prefix.
+/// Part of the trusted base: std's Vec growth itself is not exercised.
+#[cfg(kani)]
+pub mod vecmodel {
+    use std::alloc::Allocator;
+    pub const CAP: usize = 192;
+
+    pub fn new<T>() -> Vec<T> {
+        Vec::with_capacity(CAP)
+    }
+
+    pub fn push<T, A: Allocator>(v: &mut Vec<T, A>, x: T) {
+        let len = v.len();
+        kani::assert(len < v.capacity(), "C07-model: Vec capacity exceeded (push)");
+        unsafe {
+            v.set_len(len + 1);
+            core::ptr::write(&mut v[len], x);
+        }
+    }
+
+    pub fn extend_from_slice<T: Clone, A: Allocator>(v: &mut Vec<T, A>, s: &[T]) {
+        let len = v.len();
+        let n = s.len();
+        kani::assert(n <= 16 && len + n <= v.capacity(), "C07-model: Vec capacity exceeded (extend_from_slice)");
+        unsafe {
+            v.set_len(len + n);
+        }
+        macro_rules! cp {
+            ($($k:expr),*) => { $( if $k < n { unsafe { core::ptr::write(&mut v[len + $k], s[$k].clone()); } } )* };
+        }
+        cp!(0, 1, 2, 3, 4, 5, 6, 7, 8, 9, 10, 11, 12, 13, 14, 15);
+    }
+
+    /// `<[u8]>::copy_from_slice`: element-wise, at most 16 elements.  Reached through the
+    /// overwrite branch of dora-asm's emit_u32/u64/u128 (`Write for &mut [u8]`), where std
+    /// would issue a memcpy of symbolic size.
+    pub fn copy_from_slice<T: Copy>(dst: &mut [T], src: &[T]) {
+        let n = src.len();
+        kani::assert(n <= 16 && dst.len() == n, "C07-model: copy_from_slice longer than 16 or length mismatch");
+        macro_rules! cp {
+            ($($k:expr),*) => { $( if $k < n { dst[$k] = src[$k]; } )* };
+        }
+        cp!(0, 1, 2, 3, 4, 5, 6, 7, 8, 9, 10, 11, 12, 13, 14, 15);
+    }
 }
